@@ -146,7 +146,96 @@ def _dfs(aname, prefix, depth, acc, seed):
             r.close()
 
 
+# ------------------------------------------------------------------ compositions over the whole op catalogue
+# every plain case f of the op catalogue (specs/ops.py: all differentiable functions x shapes x operand values incl. the extreme ones)
+# inside four program templates; the reference is the complex-step derivative of the same composition of the case's functional model
+TEMPLATES = {
+    "fan": (lambda mg, f, xs: (lambda u: u * u + u)(f(*xs)), lambda f, xs: (lambda u: u * u + u)(f(*xs))),
+    "diamond": (lambda mg, f, xs: f(*xs) * xs[0].sum(), lambda f, xs: f(*xs) * xs[0].sum()),
+    "pre": (lambda mg, f, xs: f(*[+x for x in xs]), lambda f, xs: f(*xs)),
+    "post": (lambda mg, f, xs: mg.exp(f(*xs) * 0.125), lambda f, xs: np.exp(f(*xs) * 0.125)),
+}
+_CAT = {}
+
+
+def cat_cases(tier):
+    from specs import ops
+
+    if tier not in _CAT:
+        out = []
+        for i, c in enumerate(ops.all_cases(tier)):
+            if c.get("mask") is not None or c.get("conv") or c.get("dtype") or c.get("zero_where_input_zero") or c.get("gones"):
+                continue
+            if any(k != "t" for k in (c.get("kinds") or ())):
+                continue
+            if any(a.ndim and not a.flags.c_contiguous for a in c["operands"]) or any(a.size == 0 for a in c["operands"]):
+                continue
+            out.append((i, c))
+        _CAT[tier] = out
+    return _CAT[tier]
+
+
+def check_cat(tier, k, tname):
+    import mygrad as mg
+    from harness import C02
+
+    i, case = cat_cases(tier)[k]
+    base.reset_mygrad()
+    arrays = [np.array(a, dtype=np.float64) for a in case["operands"]]
+    xs = [mg.tensor(a.copy()) for a in arrays]
+    build, model = TEMPLATES[tname]
+    try:
+        L = build(mg, case["mg"], xs)
+        L.backward()
+    except Exception as e:
+        eb = base.exc_brief(e)
+        del e
+        return ("exception", "%s: %s" % eb)
+    shadow = lambda *a: model(case["shadow"], list(a))  # noqa: E731
+    with np.errstate(all="ignore"):
+        ref = np.asarray(shadow(*arrays))
+    if not np.all(np.isfinite(np.real(ref))):
+        return ("skip", "the composition overflows at these values")
+    if case["op"] != "arctan2" and not np.allclose(L.data, np.real(ref), rtol=1e-10, atol=1e-10):
+        return ("forward_value", "forward %s, model %s" % (explore.fmt(L.data), explore.fmt(np.real(ref))))
+    for j, x in enumerate(xs):
+        exp = C02.cs_expected(shadow, arrays, j, np.ones(np.shape(ref)))
+        if not np.all(np.isfinite(exp)):
+            continue  # not differentiable here (or the model itself overflows)
+        g = x.grad
+        if g is None:
+            return ("grad_none", "operand %d of %s in template %s: expected %s" % (j, case["name"], tname, explore.fmt(exp)))
+        if not C02.compare(g, exp, 2e-8):
+            return ("grad_value", "operand %d of %s in template %s: impl %s expected %s" % (j, case["name"], tname, explore.fmt(g), explore.fmt(exp)))
+    return None
+
+
+def run_cat_task(task):
+    _, tier, stride, offset = task
+    acc = base.Acc()
+    n = len(cat_cases(tier))
+    for k in range(offset, n, stride):
+        for tname in TEMPLATES:
+            r = check_cat(tier, k, tname)
+            acc.inc("evaluations")
+            if r is not None and r[0] == "skip":
+                acc.outcome("skip: " + r[1])
+                continue
+            acc.inc("traces")
+            acc.inc("transitions")
+            acc.nontrivial.add(base.stable_hash(("cat", k, tname)))
+            acc.states.add(hash(("cat", k, tname)))
+            if r is not None:
+                acc.violation({"case": {"cat": [tier, k, tname, cat_cases(tier)[k][1]["name"]]}, "failure": (1, ("backward",)) + r[:1] + ("", r[1])})
+                acc.outcome("fail:" + r[0])
+            else:
+                acc.outcome("ok:catalogue composition")
+    return acc
+
+
 def run_task(task):
+    if task[0] == "cat":
+        return run_cat_task(task)
     aname, prefix, depth, seed = task
     acc = base.Acc()
     _dfs(aname, prefix, depth, acc, seed)
@@ -178,11 +267,14 @@ def plan(tier, seed):
         for kk in range(k):
             for p in _prefixes(ALPH[aname], kk, seed, INITS[aname]):
                 tasks.append((aname, p, kk, seed))
+    tasks += [("cat", "quick", 32, o) for o in range(32)]
     return dict(
         tasks=tasks,
         run=run_task,
         rule="all straight-line SSA programs up to n statements (operands range over all earlier values, both operand "
-        "orders, constants and scalars included); non-trivial = a leaf reaches L with operand repetition/fan-out or through a broadcast",
+        "orders, constants and scalars included); non-trivial = a leaf reaches L with operand repetition/fan-out or through a broadcast; "
+        "plus every plain case of the op catalogue (every differentiable function x shapes x value tables incl. extreme values) inside 4 "
+        "program templates (fan-out of the result, diamond through the first operand, non-leaf operands, chain after)",
         bounds={a: d for a, d in BOUNDS[tier]},
         assumptions=[
             "leaves a:(2,), b:(2,1) float64; constants ndarray (2,) and scalar 2.0; results limited to <=8 elements",
@@ -203,6 +295,12 @@ def _fails(h, seed, INIT=INIT):
 
 
 def replay(case):
+    if "cat" in case:
+        tier, k, tname, name = case["cat"]
+        if cat_cases(tier)[k][1]["name"] != name:
+            return []
+        r = check_cat(tier, k, tname)
+        return [dict(failure=(1, ("backward",)) + r[:1] + ("", r[1]))] if r is not None and r[0] != "skip" else []
     h = [tuplify(s) for s in case["history"]]
     f = _fails(h, case.get("seed", 0), INITS[case.get("alphabet", "core")])
     return [dict(failure=f)] if f is not None else []
@@ -212,6 +310,13 @@ def finalize(v):
     import harness.C04 as C04
 
     case = v["case"]
+    if "cat" in case:
+        r = replay(case)
+        if not r:
+            return None
+        f = r[0]["failure"]
+        return dict(case=case, failure=dict(kind=f[2], detail=f[4]), script="# catalogue case %r in template %r (harness/C01.py TEMPLATES)\n# %s: %s\n" % (case["cat"][3], case["cat"][2], f[2], f[4]),
+                    signature=base.stable_hash(("cat", case["cat"][3].split("(")[0].split(" ")[0], case["cat"][2], f[2])))
     seed = case.get("seed", 0)
     INIT = INITS[case.get("alphabet", "core")]
     h = [tuplify(s) for s in case["history"]]
